@@ -188,6 +188,7 @@ theorem implL_conv (xs : List Val) (st : LStep) : implL xs (convStep st) = implL
   | index v => rfl
   | count v => rfl
   | indexIn v a b => rfl
+  | radd vs => rfl
   | getBad => rfl
   | setBad => rfl
   | delBad => rfl
@@ -254,6 +255,7 @@ theorem admissible_of_conv {xs : List Val} {st : LStep} (h : admissibleConvL xs 
   | index v => rfl
   | count v => rfl
   | indexIn v a b => rfl
+  | radd vs => rfl
   | getBad => rfl
   | setBad => rfl
   | delBad => rfl
@@ -366,6 +368,7 @@ theorem admissibleD_conv {st : DStep} (h : admissibleConvD st = true) : admissib
   | popitem => rfl
   | clear => rfl
   | copy => rfl
+  | union p r => rfl
 
 theorem implD_conv (kvs : List (Key × Val)) (st : DStep) : implD kvs (convStepD st) = implD kvs st := by
   obtain ⟨op, nt⟩ := st
